@@ -871,6 +871,25 @@ NODES = ("n1", "n2")
 NODE_EVAL = {"cases": 0, "M_hist": 0, "V_hist": 0}
 
 
+FREE = "-"
+
+
+def resolve_free(c):
+    """round 8: a push without X-CH-DSN (node "-"): the registry chose the node. The request's node is the one whose connection
+    carried its samples (that is where the reader will look for them); everything else of the request - the series row, the
+    cache view - must be that node's: the resolved history is judged like any other history over two nodes."""
+    if not any(st.get("node") == FREE for st in c["steps"]):
+        return c
+    steps = []
+    for st, ob in zip(c["steps"], c["obs"]):
+        if st.get("node") == FREE:
+            calls = ob.get("calls") or []
+            spl = [cl for cl in calls if cl["table"] == "samples"] or calls
+            st = dict(st, node=(spl[0].get("node") or NODES[0]) if spl else NODES[0], free=True)
+        steps.append(st)
+    return dict(c, steps=steps)
+
+
 def has_nodes(c):
     """round 7: a history whose pushes name different ClickHouse nodes (two servers, one database name)"""
     return any(st.get("node") for st in c["steps"])
@@ -891,7 +910,7 @@ def node_projections(c, base):
             elif (st.get("node") or NODES[0]) == nd:
                 mine = [cl for cl in ob.get("calls") or [] if (cl.get("node") or NODES[0]) == nd]
                 foreign = foreign or len(mine) != len(ob.get("calls") or [])
-                steps.append({x: y for x, y in st.items() if x != "node"})
+                steps.append({x: y for x, y in st.items() if x not in ("node", "free")})
                 obs.append(dict(ob, calls=mine))
         out.append({"id": base + k, "class": c["class"], "steps": steps, "obs": obs})
     return out, foreign
@@ -904,7 +923,7 @@ def ncase_to_coq(c):
     steps, obs = [], []
     for st, ob in zip(c["steps"], c["obs"]):
         nd = st.get("node") or NODES[0]
-        steps.append({x: y for x, y in st.items() if x != "node"})
+        steps.append({x: y for x, y in st.items() if x not in ("node", "free")})
         obs.append(ob if st["k"] == "reset" else dict(ob, calls=[cl for cl in ob.get("calls") or [] if (cl.get("node") or NODES[0]) == nd]))
     acts, hobs = hist_terms({"id": c["id"], "steps": steps, "obs": obs})
     macts = []
@@ -951,6 +970,7 @@ def eval_cases(ck, name, cases):
     """histories with a group step are judged by model/SharedInsert.v, the others by model/SeriesIndex.v; a history over two
     nodes is judged node by node (node_projections)"""
     res, outs = {k: [] for k in H_LISTS}, ""
+    cases = [resolve_free(c) for c in cases]
     multi = [c for c in cases if has_nodes(c)]
     if multi:
         cases = [c for c in cases if not has_nodes(c)]
@@ -1190,7 +1210,7 @@ def show_hist(c):
         d["status"] = ob["status"]
         d["inserts"] = [{"table": cl["table"], "ok": cl["ok"], "rows": cl["rows"]} for cl in ob["calls"] or []]
         if has_nodes(c):
-            d["node named by the request (X-CH-DSN); both nodes are single servers whose database is called qryn"] = st.get("node") or NODES[0]
+            d["node named by the request (X-CH-DSN); both nodes are single servers whose database is called qryn"] = ("none (no X-CH-DSN header: the registry chooses the node)" if st.get("node") == FREE else st.get("node") or NODES[0])
             d["inserts"] = [dict(x, **{"on the connection of node": cl.get("node") or NODES[0]}) for x, cl in zip(d["inserts"], ob["calls"] or [])]
         out.append(d)
     return out
@@ -1352,7 +1372,7 @@ def run_hist(ck):
             if st["k"] == "push" and 200 <= ob["status"] < 300:
                 got[nd] |= {s_["fp"] for s_ in st["streams"]}
         return got[NODES[0]] & got[NODES[1]]
-    ncases = [c for c in cases if has_nodes(c)]
+    ncases = [resolve_free(c) for c in cases if has_nodes(c)]
     nboth = sum(1 for c in ncases if both_nodes(c))
     nhit = sum(1 for c in ncases for i, (st, ob) in enumerate(zip(c["steps"], c["obs"]))
                if st["k"] == "push" and 200 <= ob["status"] < 300 and any(cl["table"] == "time_series" and cl["ok"] for cl in ob["calls"] or [])
@@ -1367,6 +1387,10 @@ def run_hist(ck):
     ck.extra["hist_two_nodes"]["evaluated as one run of the product model (mrun_obs, m_violation)"] = dict(NODE_EVAL)
     ck.obligation("every history over two nodes was compared, as ONE history, with the product model of model/SeriesNodes.v (one shared cache of prefixed entries, a table per node: mrun_obs with prefix = node name) and judged by its node-by-node oracle m_violation",
                   NODE_EVAL["cases"] >= len(ncases) >= 16, "%d evaluations for %d histories over two nodes" % (NODE_EVAL["cases"], len(ncases)))
+    free = [st for c in ncases for st in c["steps"] if st.get("free")]
+    ck.extra["hist_two_nodes"]["pushes without X-CH-DSN (the registry chose the node)"] = {"pushes": len(free), "stored on n2": sum(1 for st in free if st["node"] == NODES[1])}
+    ck.obligation("pushes that name no node (no X-CH-DSN header) were sent to the writer with two nodes and the registry chose both nodes (the request's node = the connection its samples travelled on; series row and cache view must be that node's)",
+                  len(free) >= 30 and 3 <= sum(1 for st in free if st["node"] == NODES[1]) <= len(free) - 3, "%d header-less pushes" % len(free))
     ck.add_samples([show_hist(c) for c in ncases if len(c["steps"]) == 3][:1])
     ck.add_samples([show_hist(c) for c in cases if len(c["steps"]) >= 2 and not has_group(c)][:1] + [show_hist(c) for c in cases if has_group(c)][:1])
 
